@@ -185,7 +185,7 @@ pub fn judge_program(p: &Prog, cssout: &str, maxn: usize) -> Verdict {
 
 const COMPOUNDS: &[&str] = &[".x", ".y", "a", "a.x", ".x.y", "#i", ".x:hover", ":not(.x)", ":is(.x, .y)", "b.y", "%p", "[t]", ".x::before", "a#i"];
 const COMPLEXES: &[&str] = &[".x .y", ".y > .x", "a + .x", ".z ~ .x", ".x .x", ".x > .y .x", "a .x", ".x, .y", "a > .y, .x"];
-const EXTENDERS: &[&str] = &[".z", "b", ".z.y", ".z .w", "b > .z", "#j", ".z + .w", ".z, .w", ".z:hover"];
+const EXTENDERS: &[&str] = &[".z", "b", ".z.y", ".z .w", "b > .z", "#j", ".z + .w", ".z, .w", ".z:hover", ":focus"];
 const TARGETS: &[&str] = &[".x", ".y", "a", "#i", "%p", ":hover", "[t]", "::before"];
 
 fn programs(ctx: &Ctx) -> Vec<Prog> {
@@ -296,6 +296,51 @@ pub fn run(ctx: &Ctx) {
 
     // ---- (vi) rule-order invariance of match sets is covered by enumerating both orders above:
     // each order is judged against the same semantic oracle.
+
+    // ---- a rule partly inside a nested at-rule is one rule: both parts get the same extension ----------
+    {
+        let sub = "nested-at-rule-parts";
+        let tsels = [".t", ".t.u", "a .t", "%t", ".t, .v"];
+        let ats = ["@media screen", "@supports (a: b)", "@x y"];
+        let exts = [".e", ".e .f", ".e:hover", "b"];
+        let n = (tsels.len() * ats.len() * exts.len() * 2) as u64;
+        par(
+            ctx,
+            sub,
+            n,
+            |i| json!({"index": i}),
+            |i, l| {
+                let i = i as usize;
+                let ts = tsels[i % tsels.len()];
+                let at = ats[(i / tsels.len()) % ats.len()];
+                let ex = exts[(i / tsels.len() / ats.len()) % exts.len()];
+                let before = i / tsels.len() / ats.len() / exts.len() == 1;
+                let target = if ts.starts_with('%') { "%t" } else { ".t" };
+                let rule = format!("{} {{ a: b; {} {{ p: q; }} }}", ts, at);
+                let ext = format!("{} {{ @extend {}; k: l; }}", ex, target);
+                let src = if before { format!("{}\n{}\n", ext, rule) } else { format!("{}\n{}\n", rule, ext) };
+                l.evals += 1;
+                let o = fresh_thread(|| compile(&src, &Cfg::scss()));
+                l.outcome(o.digest());
+                l.validated += 1;
+                let key = format!("extend:nested-at-rule:{}", src.replace('\n', " "));
+                match &o {
+                    Outcome::Ok(c) => {
+                        l.nontrivial += 1;
+                        let blocks = css::flatten(&css::parse(c).unwrap_or_default());
+                        let outer = blocks.iter().find(|b| b.path.is_empty() && b.decls.iter().any(|d| d.0 == "a")).map(|b| b.selector.clone());
+                        let inner = blocks.iter().find(|b| !b.path.is_empty() && b.decls.iter().any(|d| d.0 == "p")).map(|b| b.selector.clone());
+                        if outer.is_none() || outer != inner {
+                            ctx.violation(sub, &key, &format!("the declarations of one style rule are emitted under different selectors: {:?} at the top level, {:?} inside `{}`", outer, inner, at), json!({"input": src, "output": c}));
+                        }
+                    }
+                    other => ctx.violation(sub, &key, &format!("the program must compile: {}", other.brief()), json!({"input": src})),
+                }
+            },
+        );
+        ctx.bound(sub, "5 target rules (class, compound, descendant, placeholder, list) holding a declaration and a nested @media / @supports / unknown at-rule with a declaration x 4 extenders x @extend before / after: the part inside the at-rule carries the same selector as the part outside", true);
+        ctx.sample(sub, json!({"input": ".t { a: b; @media screen { p: q; } }\n.e { @extend .t; k: l; }"}));
+    }
 
     // ---- (viii) missing targets; (vii) media scoping ------------------------------------------------
     let sub = "errors-and-scope";
